@@ -19,7 +19,7 @@ type Case struct {
 
 // ParseOnce runs the real parser on the entities of msg in the given order.
 func ParseOnce(msg Msg, order []int, zone string, ext extensions.Extension) (run Run) {
-	run = Run{Order: order, Zone: zone}
+	run = Run{Order: order, Zone: zone, Empties: EmptyEntities}
 	optLoc, loc := Zone(zone)
 	b := Bytes(msg, order)
 	verifhook.Sink = func(event string, args []any) {
@@ -110,6 +110,11 @@ func RunCase(id string, c Case, zones []string, maxPerm int, w *abs.Writer) (cra
 		DupEntityIDs = true
 		rec.Runs = append(rec.Runs, ParseOnce(msg, identity(n), "nil", nil))
 		DupEntityIDs = false
+	}
+	if h := len(id) + int(id[len(id)-1]); h%2 == 0 { // once more with payload-less entities around every entity
+		EmptyEntities = true
+		rec.Runs = append(rec.Runs, ParseOnce(msg, identity(n), "nil", nil))
+		EmptyEntities = false
 	}
 	for _, z := range zones {
 		if z != "nil" {
